@@ -31,7 +31,7 @@ CHECKS = {
          "120 (quick) / 2500 (thorough) histories of 14-28 steps: retained/plain/empty publishes, retained wills of dropped victims, subscriptions cycling through all 105 filters of the depth<=3 universe; 150 (quick) / 3000 (thorough) concurrent runs in which 3-8 subscribers subscribe while a publisher streams 40-100 numbered retained values under backend load (replayed value + live values must be gap-free)",
          "per-filter replay of one SUBSCRIBE may arrive 1..k times; QoS 0 publishes for an offline persistent subscriber may be dropped", "2-C11"),
  "C07": ("fault_enumeration", "offline checkers over the recorded event log (backend ack -> PUBACK/PUBCOMP order, three-state QoS 2 receiver model driven by the broker's own received-packet report, hand-over counts) plus a pre-send assertion on the session for PUBREC and a SUBACK fence through the ack queue",
-         "every publisher script of length <=3 (quick) / <=4 plus sampled length 5 (thorough) x every single connection-fault position (k-th Send/Receive, before/after, per connection) x backend ack mode {sync, late, never} x backend refusing the k-th hand-over; held-late-ack scenarios",
+         "every publisher script of length <=3 (quick) / <=4 plus 1200 sampled of length 5 (thorough) x every single connection-fault position (all positions up to length 2 in quick / 3 in thorough, every 2nd-3rd position with a moving offset beyond) (k-th Send/Receive, before/after, per connection) x backend ack mode {sync, late, never} x backend refusing the k-th hand-over; held-late-ack scenarios",
          "what the broker received is taken from Log(PacketReceived); one finding (second hand-over while the first is still unacknowledged) is recorded in known_findings.json", "2-C07"),
  "C08": ("fault_enumeration", "pre-send assertion on the live session (store-before-send), model of sent-and-unacknowledged packets driven by broker-side sends and the broker's received-packet report compared with the session store at connection ends, retransmission/DUP check after resume, no-second-non-duplicate check, end-to-end no-loss check, session-present model",
          "90 (quick) / 1200 (thorough) base scenarios (window 1-3, 1..window+2 messages QoS 1/2, offline messages, subscriber behaviour vectors over ack/withhold/drop on first and resumed connection, clean/unclean second connect) x every single fault position on each subscriber connection (all positions for a third of the scenarios in quick)",
